@@ -237,17 +237,20 @@ Fixpoint wfields (W : prog) : list Z :=
   | PWriteBytes f _ k => f :: wfields k
   | PZero _ k => wfields k
   | PIf _ a b => wfields a ++ wfields b
+  | PAssign _ _ k => wfields k
   | _ => []
   end.
 
-Lemma emitted_wfields W s : forall f, In f (emitted cs call W s) -> In f (wfields W).
+Lemma emitted_wfields W : forall s f, In f (emitted cs call W s) -> In f (wfields W).
 Proof.
-  induction W; intros g Hg; cbn [emitted wfields] in *; try contradiction.
-  - destruct Hg as [<-|Hg]; [left; reflexivity|right; apply IHW; exact Hg].
-  - destruct Hg as [<-|Hg]; [left; reflexivity|right; apply IHW; exact Hg].
-  - apply IHW; exact Hg.
+  induction W; intros s g Hg; cbn [emitted wfields] in *; try contradiction.
+  - destruct Hg as [<-|Hg]; [left; reflexivity|right; eapply IHW; exact Hg].
+  - destruct Hg as [<-|Hg]; [left; reflexivity|right; eapply IHW; exact Hg].
+  - eapply IHW; exact Hg.
+  - destruct (kind_of cs f) as [[t| |]|]; try contradiction.
+    destruct (eval_as cs call t s no_locals e); [|contradiction]. eapply IHW; exact Hg.
   - destruct (eval cs call s no_locals c) as [x|]; [|contradiction].
-    apply in_or_app. destruct (fst x =? 0); [right; apply IHW2|left; apply IHW1]; exact Hg.
+    apply in_or_app. destruct (fst x =? 0); [right; eapply IHW2|left; eapply IHW1]; exact Hg.
 Qed.
 
 Definition deriv_conts (A : list (Z * expr)) : list Z :=
